@@ -4326,11 +4326,12 @@ void SoPlexBase<R>::_untransformUnbounded(SolRational& sol, bool unbounded)
 
    int numOrigCols = numColsRational() - 1;
    int numOrigRows = numRowsRational() - 1;
-   const Rational& tau = sol._primal[numOrigCols];
 
    // adjust solution and basis
    if(unbounded)
    {
+      const Rational& tau = sol._primal[numOrigCols];
+
       assert(tau >= _rationalPosone);
 
       sol._isPrimalFeasible = false;
@@ -4349,7 +4350,9 @@ void SoPlexBase<R>::_untransformUnbounded(SolRational& sol, bool unbounded)
       _basisStatusCols.reSize(numOrigCols);
       _basisStatusRows.reSize(numOrigRows);
    }
-   else if(boolParam(SoPlexBase<R>::TESTDUALINF) && tau < _rationalFeastol)
+   // after a stop at a limit or an error the solution was invalidated: there is no tau to look at
+   else if(boolParam(SoPlexBase<R>::TESTDUALINF) && sol._isPrimalFeasible
+           && sol._primal[numOrigCols] < _rationalFeastol)
    {
       const Rational& alpha = sol._dual[numOrigRows];
 
